@@ -10,6 +10,10 @@ markers, request volumes and earnings are not part of the genesis and start empt
 bank module's own genesis: they are carried over as the preparation left them (modelled, not verified — the
 harness copies the balances of the old application into the fresh one, `restart` op of SPEC.md §4.2).
 `none` = the preparation or the import panics.
+
+`usedIds` is not store content but the model's rendering of E7 (a (tx hash, message index) pair is never used twice):
+it is carried over a restart as it is — the transactions of the old chain have still happened —, whereas `importG`
+into an unrelated fresh chain only knows the ids of the imported contexts.
 -/
 namespace SM
 
@@ -19,7 +23,7 @@ def restart (s : State) (height time : Int) : Option State :=
   | none =>
     match importG s.cfg (exportG (prep s).s) height time with
     | none => none
-    | some s' => some { s' with bank := (prep s).s.bank }
+    | some s' => some { s' with bank := (prep s).s.bank, usedIds := s.usedIds }
 
 /-- states reachable from an arbitrary starting state by well-formed operations -/
 inductive ReachableFrom (s0 : State) : State → Prop
